@@ -855,3 +855,88 @@ func rangeAscending(fn *ssa.Function) bool {
 	})
 	return ok
 }
+
+func init() {
+	register(&Rule{
+		ID: "C14.R7", Props: []string{"C14", "C19", "C13"}, Min: 3,
+		Doc: "delimiter handling keeps the rest of the value: wherever a declaration or pair is split at a constant `:` the split happens at the first colon only (strings.SplitN(x, \":\", 2), strings.Cut or strings.Index + slicing) so that values containing a colon (url(https://…), data: URIs, times) survive; wherever the closing `}}` of a mustache is searched, the first occurrence is taken (strings.Index), never the last",
+		Run: func(p *Prog, c *Ctx) {
+			n := 0
+			for _, fn := range p.Funcs {
+				for _, site := range callsIn(fn) {
+					cc := site.Common()
+					nm := calleeName(cc)
+					if !strings.HasPrefix(nm, "strings.") || len(cc.Args) < 2 {
+						continue
+					}
+					sep, ok := constString(cc.Args[1])
+					if !ok {
+						continue
+					}
+					switch {
+					case sep == ":":
+						n++
+						key := fmt.Sprintf("%s: %s(_, \":\")#%d", shortName(fn), nm, n)
+						switch nm {
+						case "strings.SplitN":
+							lim, _ := constInt(cc.Args[2])
+							c.check(lim == 2, key, p.instrPos(site), "split at the first colon", fmt.Sprintf("SplitN with limit %d cuts the value at a later colon", lim))
+						case "strings.Index", "strings.Cut", "strings.IndexByte", "strings.Contains", "strings.HasPrefix", "strings.HasSuffix", "strings.TrimPrefix", "strings.TrimSuffix":
+							c.ok(key, p.instrPos(site), "first colon")
+						case "strings.Split", "strings.LastIndex", "strings.SplitAfter":
+							c.fail(key, p.instrPos(site), nm+" on \":\" does not keep the remainder of the value together: a declaration whose value contains a colon (url(https://…), data: URI) is dropped or truncated when styles are merged")
+						default:
+							c.ok(key, p.instrPos(site), nm)
+						}
+					case sep == "}}":
+						n++
+						key := fmt.Sprintf("%s: %s(_, \"}}\")#%d", shortName(fn), nm, n)
+						c.check(nm != "strings.LastIndex", key, p.instrPos(site), "first closing delimiter", "the closing `}}` is searched from the end: everything between the first `{{` and the last `}}` of a text — including ordinary text and escaped markup between two expressions — is treated as one expression and copied unescaped")
+					}
+				}
+			}
+		},
+	})
+
+	register(&Rule{
+		ID: "C20.R5", Props: []string{"C20"}, Min: 3,
+		Doc: "the Markdown source is read only through goldmark's segments: no function of the markdown renderer slices or indexes the source byte slice itself; text, code and raw HTML are obtained by Segment.Value / Lines().At(i).Value per line, which is what excludes container prefixes (`> `, list indentation, fence indentation) from block content",
+		Run: func(p *Prog, c *Ctx) {
+			n, reads := 0, 0
+			for _, fn := range p.Funcs {
+				if pk := funcPkg(fn); pk == nil || pk.Path() != markdownPkg {
+					continue
+				}
+				var src *ssa.Parameter
+				for _, prm := range fn.Params {
+					if sl, ok := prm.Type().Underlying().(*types.Slice); ok && prm.Name() == "src" {
+						if b, ok := sl.Elem().Underlying().(*types.Basic); ok && b.Kind() == types.Byte {
+							src = prm
+						}
+					}
+				}
+				if src == nil {
+					continue
+				}
+				n++
+				bad := ""
+				if refs := src.Referrers(); refs != nil {
+					for _, r := range *refs {
+						switch x := r.(type) {
+						case *ssa.Slice:
+							bad = "slices the source directly at " + p.instrPos(x)
+						case *ssa.IndexAddr:
+							bad = "indexes the source directly at " + p.instrPos(x)
+						case ssa.CallInstruction:
+							if strings.HasSuffix(calleeName(x.Common()), "Segment).Value") {
+								reads++
+							}
+						}
+					}
+				}
+				c.check(bad == "", shortName(fn)+": source access", p.pos(fn.Pos()), "only passed on or read through Segment.Value", shortName(fn)+" "+bad+": a source range spanning several lines includes the container prefixes between the line segments (blockquote markers, list/fence indentation end up inside <code>)")
+			}
+			c.check(reads >= 3, "segment reads", "-", fmt.Sprintf("%d Segment.Value(src) reads in %d functions holding the source", reads, n), "the renderer no longer reads source text through segments")
+		},
+	})
+}
